@@ -420,14 +420,44 @@ fn cmd_run(args: &Args) -> i32 {
         std::fs::write(&replay_path, serde_json::to_string_pretty(&rf).unwrap()).expect("write replay");
         // the minimised file must reproduce in a fresh process
         let st = wrapped_self().arg("replay").arg(&replay_path).arg("--quiet").arg("1").status();
+        let mut rf = rf;
         match st.map(|s| s.code()) {
             Ok(Some(1)) => {}
             other => {
-                eprintln!("harness error: the minimised replay {} did not reproduce in a fresh process ({:?})", replay_path, other);
-                write_evidence(prop.as_ref(), tier, seed, &total, hashes.len() as u64, start.elapsed().as_secs_f64(), wall_search, 1, &known, jobs);
-                return 2;
+                // In-process minimisation assumes that replays are independent of each other. If
+                // the system under test keeps hidden process-wide state (a thread-local pool, a
+                // static), candidates executed in the parent pollute each other and the result may
+                // not reproduce in a fresh process. Fall back to the literal history of the run
+                // and minimise it with one child process per candidate.
+                let cut = (fv.violation.step + 1).min(fv.ops.len()).max(1);
+                let mut lit = ReplayFile {
+                    property: id.to_string(),
+                    seed,
+                    run: fv.run,
+                    world: fv.world.clone(),
+                    ops: if fv.violation.step >= fv.ops.len() { fv.ops.clone() } else { fv.ops[..cut].to_vec() },
+                    faults: vec![],
+                    violation: fv.violation.clone(),
+                    minimised: false,
+                    original_ops: fv.ops.len(),
+                    note: "minimised with one child process per candidate (in-process replays were not independent of each other: the system under test keeps hidden process-wide state)".to_string(),
+                };
+                std::fs::write(&replay_path, serde_json::to_string_pretty(&lit).unwrap()).expect("write replay");
+                let st2 = wrapped_self().arg("replay").arg(&replay_path).arg("--quiet").arg("1").status();
+                if !matches!(st2.map(|s| s.code()), Ok(Some(1))) {
+                    eprintln!("harness error: neither the minimised nor the literal history of run {} reproduces in a fresh process ({:?}); the violation depends on what earlier runs left in the worker process", fv.run, other);
+                    write_evidence(prop.as_ref(), tier, seed, &total, hashes.len() as u64, start.elapsed().as_secs_f64(), wall_search, 1, &known, jobs);
+                    return 2;
+                }
+                if fv.violation.step < fv.ops.len() {
+                    minimise_children(&mut lit, &format!("{}/{}-cand.json", work, id), 80);
+                }
+                lit.faults = faults_of(&lit.ops);
+                std::fs::write(&replay_path, serde_json::to_string_pretty(&lit).unwrap()).expect("write replay");
+                rf = lit;
             }
         }
+        let (v, o) = (rf.violation.clone(), rf.ops.clone());
         println!("VIOLATION property={} replay={}", id, replay_path);
         println!("  signature={} step={} ops={} (from {})", v.signature, v.step, o.len(), fv.ops.len());
         println!("  expected: {}", v.expected);
